@@ -287,7 +287,14 @@ def run(tier, workers=None):
     fix_all = True
     for cfg in cfgs:
         d = 3 if tier == "quick" else 4
-        res = explore.explore(cfg.make, max_depth=d, workers=workers, max_states=1500 if tier == "quick" else 8000, budget_s=None if tier == "quick" else 90)
+        # non-initial start states: an object that was indexed, then removed (or replaced) while the index stayed in use -
+        # from there the same bytes coming back is one step away
+        nm0 = {"T1": "t.ics", "E3": "c.ics", "ETZ": "z.ics", "FB2": "f.ics", "EF": "e.ics", "EFL": "l.ics"}.get(cfg.bodies[0], "a.ics")
+        f0 = cfg.filters[0]
+        seeds = [[("put", nm0, cfg.bodies[0]), ("qq", f0), ("delete", nm0), ("q", f0)]]
+        if len(cfg.bodies) > 1 and {"T1": "t.ics", "E3": "c.ics", "ETZ": "z.ics", "FB2": "f.ics", "EF": "e.ics", "EFL": "l.ics"}.get(cfg.bodies[1], "a.ics") == nm0:
+            seeds.append([("put", nm0, cfg.bodies[0]), ("qq", f0), ("put", nm0, cfg.bodies[1]), ("q", f0)])
+        res = explore.explore(cfg.make, max_depth=d, workers=workers, max_states=1500 if tier == "quick" else 8000, budget_s=None if tier == "quick" else 90, seed_histories=seeds)
         for e in res.errors:
             rep.harness_error(e[:1500])
         for sig, e in res.violations.items():
@@ -316,6 +323,7 @@ def run(tier, workers=None):
     return rep.finish("model_checking", cov, assumptions=[
         "reference = the implementation's own naive path on a second backend (threshold 10**6) over the same directory: a differential oracle, so defects of filter semantics (C11) cannot leak in",
         "one configuration has a second worker (own store cache and index) writing to the same directory; the queried worker must follow",
+        "seeded start states: an object indexed, then deleted (or replaced) and queried again through the index",
         "queries with their own CALDAV:timezone (UTC+9) against floating times, next to queries in the server zone (TZ=UTC in the harness)",
         "objects: single VEVENT, one resource with two VEVENTs (RRULE master + RECURRENCE-ID override), a VTODO, optionally an unparseable .ics committed with git",
     ])
